@@ -33,7 +33,12 @@ type rEnv struct {
 	mu       sync.Mutex
 	rids     map[uint64]string // goroutine -> round name, for rounds that overlap
 	lastPick map[string]string // round name -> server picked last
-	parkAt   string            // round name to hold at the yield point sync:picked (once)
+	sched    bool              // the report loop's scheduling events are traced; rounds are named as they begin
+	recent   bool              // last-sync.txt says the last successful sync is recent
+	nlaunch  int
+	nreturn  int
+	lost     bool   // more rounds in flight than there are names: the scenario is abandoned
+	parkAt   string // round name to hold at the yield point sync:picked (once)
 	parked   chan struct{}
 	unpark   chan struct{}
 }
@@ -229,6 +234,62 @@ func runRounds(c *ctx) error {
 		t.Emit(hx.J{"a": "CliFiles", "files": abs.CliFilesJ(cli.Dir)})
 		cli.Install()
 		cli.Extra = func(cl *client.Client, ev string, args []interface{}) bool {
+			if !r.sched {
+				switch ev {
+				case "LoopInit", "LoopTick", "SyncLaunch", "SyncReturn":
+					return true // only traced in the scheduling scenarios
+				}
+			} else {
+				if r.lost {
+					return true
+				}
+				switch ev {
+				case "LoopInit":
+					t.Emit(hx.J{"a": "LoopInit", "status": int(args[0].(uint64)), "ticks": args[1].(int), "recent": r.recent})
+					return true
+				case "LoopTick":
+					t.Emit(hx.J{"a": "LoopTick", "ticks": args[0].(int)})
+					return true
+				case "SyncLaunch":
+					r.mu.Lock()
+					r.nlaunch++
+					r.mu.Unlock()
+					t.Emit(hx.J{"a": "SyncLaunch"})
+					return true
+				case "SyncReturn":
+					j := r.with(hx.J{"a": "SyncReturn", "ok": args[0].(bool), "dev": r.dev})
+					t.Emit(j)
+					r.mu.Lock()
+					delete(r.rids, hx.GoID())
+					r.nreturn++
+					r.mu.Unlock()
+					return true
+				case "SyncBegin":
+					// a round started by the loop: name its goroutine
+					r.mu.Lock()
+					used := map[string]bool{}
+					for _, n := range r.rids {
+						used[n] = true
+					}
+					name := ""
+					for _, n := range []string{"r1", "r2", "r3", "r4"} {
+						if !used[n] {
+							name = n
+							break
+						}
+					}
+					if name == "" {
+						r.lost = true
+					} else {
+						r.rids[hx.GoID()] = name
+					}
+					r.mu.Unlock()
+					if name == "" {
+						t.Emit(hx.J{"a": "DriverNote", "note": "more than four rounds in flight: the rest of this scenario is not traced"})
+						return true
+					}
+				}
+			}
 			switch ev {
 			case "SyncBegin":
 				t.Emit(r.with(hx.J{"a": "SyncBegin", "state": abs.CliStateJ(cl.VerifStateLocked())}))
